@@ -86,6 +86,7 @@ GHOST static void gc_bcast_done(void) {
   c_bdone_credit += c_wbegun;
 }
 static long crowd_waiting, crowd_total_c;
+static volatile int c_flag[4];
 GHOST static int gc_leftover(void) {
   int n = (int)crowd_waiting;
   for (int i = 0; i < g_case.n_fibers; i++) n += wstate[i] != 0;
@@ -167,6 +168,19 @@ static int cond_do_op(int idx, op_t* op) {
       if (r) c_rewaits++;
       gc_m_rel(idx);
       fiber_mutex_unlock(&cm);
+    }
+    return 1;
+  }
+  if (!strcmp(op->name, "csetflag")) {
+    c_flag[op->a & 3] = 1;
+    return 1;
+  }
+  if (!strcmp(op->name, "cpollflag")) {
+    // polls with fiber_yield, never blocks: whatever it waits for must not depend on this fiber getting out of the way
+    long n = 0;
+    while (!c_flag[op->a & 3]) {
+      fiber_yield();
+      if (++n > 3000000) vs_violation("livelock", "fiber %d polled 3000000 times for a flag that a mutex holder sets after releasing the mutex", idx);
     }
     return 1;
   }
